@@ -9,7 +9,7 @@ From Coq Require Import List NArith Permutation.
 Import ListNotations.
 From BioVerif Require Import Model.PathIDs Model.AdjRIBOut Model.LocView Model.ImportReplace
   Spec.ExportViewSpec Spec.ReplaceSpec
-  Proofs.AroIDsProofs Proofs.ReplaceProofs Proofs.ReplaceCorollary Proofs.ImportReplaceProofs.
+  Proofs.AroIDsProofs Proofs.ReplaceProofs Proofs.ReplaceCorollary Proofs.ImportReplaceProofs Proofs.FamilyProofs.
 Local Open Scope N_scope.
 
 (* ---- export side *)
@@ -79,6 +79,39 @@ Proof.
   exfalso. apply H. now apply chain_eqb_sound.
 Qed.
 Print Assumptions C12_never_skipped_contrapositive.
+
+(* ---- the fsm's entry points, skip test included (Model.ImportReplace.fam_replace_{export,import} =
+   fsmAddressFamily.replace{Export,Import}FilterChain: do nothing iff the new chain Equals the current chain of
+   the SAME direction).  With or without the shortcut the tables end up as the new policy demands, and the
+   session afterwards filters like the new chain. *)
+Theorem C12_family_export_converges :
+  forall (s : sess) (f : family) (a : aro chain) (c : chain) (v : view),
+  rguards (interp (fam_exp f)) (interp c) s v ->
+  cur a = fam_exp f -> (s_addpath s = true -> Inv chain a) ->
+  ribout_is_export_view (interp (fam_exp f)) s v a ->
+  let x' := fam_replace_export s (f, a) c v in
+  errs (snd x') = errs a ->
+  ribout_is_export_view (interp c) s v (snd x') /\
+  (forall pfx p, interp (fam_exp (fst x')) pfx p = interp c pfx p) /\
+  (forall pfx p, interp (cur (snd x')) pfx p = interp c pfx p).
+Proof. exact family_export_converges. Qed.
+Print Assumptions C12_family_export_converges.
+
+Theorem C12_family_import_converges :
+  forall (f : family) (r : rin) (other l : loc) (c : chain),
+  iguards (interp (fam_imp f)) (interp c) r other ->
+  Permutation l (other ++ establish (interp (fam_imp f)) r) ->
+  let x' := fam_replace_import (f, l) r c in
+  Permutation (snd x') (other ++ establish (interp c) r) /\
+  (forall pfx p, interp (fam_imp (fst x')) pfx p = interp c pfx p).
+Proof. exact family_import_converges. Qed.
+Print Assumptions C12_family_import_converges.
+
+(* either nothing happened - which by the two theorems above is right - or the new chain is installed *)
+Theorem C12_never_skipped_family : forall s f a c v,
+  fam_replace_export s (f, a) c v = (f, a) \/ fam_exp (fst (fam_replace_export s (f, a) c v)) = c.
+Proof. exact family_never_skipped_export. Qed.
+Print Assumptions C12_never_skipped_family.
 
 (* Non-vacuity: an eBGP session (prepend, next-hop-self); the policy changes the prepended ASN only (the case
    the pre-fix code ignored): the table follows. *)
